@@ -125,6 +125,11 @@ Lemma p_term1_neg_total n k r :
   p_term1 (S n) (TSym SMinus :: TNum k :: r) = if lit_ok k then Some (FLit (- Z.of_N k), r) else None.
 Proof. reflexivity. Qed.
 
+Lemma parser_literal_both n k r :
+  p_term1 (S n) (TNum k :: r) = (if lit_ok k then Some (FLit (Z.of_N k), r) else None) /\
+  p_term1 (S n) (TSym SMinus :: TNum k :: r) = (if lit_ok k then Some (FLit (- Z.of_N k), r) else None).
+Proof. split; [apply p_term1_num_total | apply p_term1_neg_total]. Qed.
+
 (* the composition on text: lexing a number and applying the action is num_of_digits on the digit run *)
 Lemma lex_then_action c r n rest :
   is_digit c = true -> c <> "0"%char ->
@@ -161,4 +166,62 @@ Proof.
   intro Hw. destruct (ShrinkProof.shrink_total f Hw) as [a Ha].
   exists a. split; [exact Ha|].
   apply LinearizeProof.linearize_exact.
+Qed.
+
+(* ------------------------------------------------------------------------------------------------ *)
+(* 4. code generation (theorems of C12, Proof/Codegen{Total,X86,A64,RV}.v): on a program accepted by the ordered
+   linear discipline the three code generators return Ok within capacity; contrapositive: an error of a code
+   generator on such a program means that the program is outside the capacity predicate (too many live variables
+   for the back end's temporaries, more parameters of main than argument registers, print on RISC-V). *)
+From SCC Require Model.Capacity Model.X86 Model.A64 Model.RV Proof.CodegenX86 Proof.CodegenA64 Proof.CodegenRV.
+
+Lemma x86_error_means_capacity (l : AxSyn.prog) (lc : N) msg :
+  LinCheck.lin_check_prog l = true -> X86.x86_compile l lc = Backend.Err msg -> Capacity.within_capacity_x86 l = false.
+Proof.
+  intros L E. destruct (Capacity.within_capacity_x86 l) eqn:W; [|reflexivity].
+  destruct (CodegenX86.x86_codegen_total l lc L W) as (code & lc' & E'). congruence.
+Qed.
+Lemma a64_error_means_capacity (l : AxSyn.prog) (lc : N) msg :
+  LinCheck.lin_check_prog l = true -> A64.a64_compile l lc = Backend.Err msg -> Capacity.within_capacity_a64 l = false.
+Proof.
+  intros L E. destruct (Capacity.within_capacity_a64 l) eqn:W; [|reflexivity].
+  destruct (CodegenA64.a64_codegen_total l lc L W) as (code & lc' & E'). congruence.
+Qed.
+Lemma rv_error_means_capacity (l : AxSyn.prog) (lc : N) msg :
+  LinCheck.lin_check_prog l = true -> RV.rv_compile l lc = Backend.Err msg -> Capacity.within_capacity_rv l = false.
+Proof.
+  intros L E. destruct (Capacity.within_capacity_rv l) eqn:W; [|reflexivity].
+  destruct (CodegenRV.rv_codegen_total l lc L W) as (code & lc' & E'). congruence.
+Qed.
+
+Lemma codegen_error_means_capacity : forall (l : AxSyn.prog) (lc : N) msg,
+  LinCheck.lin_check_prog l = true ->
+  (X86.x86_compile l lc = Backend.Err msg -> Capacity.within_capacity_x86 l = false) /\
+  (A64.a64_compile l lc = Backend.Err msg -> Capacity.within_capacity_a64 l = false) /\
+  (RV.rv_compile l lc = Backend.Err msg -> Capacity.within_capacity_rv l = false).
+Proof.
+  intros l lc msg L. split; [|split]; intro E.
+  - exact (x86_error_means_capacity l lc msg L E).
+  - exact (a64_error_means_capacity l lc msg L E).
+  - exact (rv_error_means_capacity l lc msg L E).
+Qed.
+
+(* 5. the composition of C12 (Proof/WtPreserve.v) without the intermediate typing facts *)
+From SCC Require Model.Check Model.Fun2Core Proof.WtPreserve.
+Lemma pipeline_total_partial_lemma :
+  WtPreserve.H_fun2core_wt -> WtPreserve.H_focus_wt -> WtPreserve.H_shrink_wt ->
+  forall src p, Check.check src = Check.COk p -> Fun2Core.barendregt p = true ->
+  exists c f a,
+    Fun2Core.compile_prog p = Fun2Core.Ok c /\
+    Focus.focus_prog c = Backend.Ok f /\
+    Shrink.shrink_prog f = Shrink.SOk a /\
+    let l := Linearize.linearize a in
+    LinCheck.lin_check_prog l = true /\
+    (forall lc, Capacity.within_capacity_x86 l = true -> exists code lc', X86.x86_compile l lc = Backend.Ok (code, Capacity.main_arity l, lc')) /\
+    (forall lc, Capacity.within_capacity_a64 l = true -> exists code lc', A64.a64_compile l lc = Backend.Ok (code, Capacity.main_arity l, lc')) /\
+    (forall lc, Capacity.within_capacity_rv l = true -> exists code lc', RV.rv_compile l lc = Backend.Ok (code, Capacity.main_arity l, lc')).
+Proof.
+  intros H1 H2 H3 src p CK BA.
+  destruct (WtPreserve.pipeline_wt_partial_lemma H1 H2 H3 src p CK BA) as (c & f & a & EC & _ & EF & _ & EA & _ & _ & R).
+  exists c, f, a. split; [exact EC|]. split; [exact EF|]. split; [exact EA|]. exact R.
 Qed.
